@@ -222,7 +222,7 @@ Definition site_client_title (version t : str) : str := site_block_doc [10] (32 
 (* DocumentationWriter.render_docstring: text goes through textwrap (stdlib, external).  Its relevant
    law, checked against the real output on every run: only WHITE SPACE is edited — every other
    character of t appears in the output in order, white space of t may be dropped / replaced by
-   spaces and line breaks, spaces and line breaks (and template text without quote/backslash) may be inserted.
+   spaces and line breaks, spaces, tabs and line breaks may be inserted (column padding can be empty).
    [layoutb t o] decides `o is such an edit of t` for the white-space-only inserted text. *)
 Definition doc_ws (c : N) : bool :=   (* textwrap's whitespace + the extra characters str.splitlines() breaks at *)
   (c =? 9) || (c =? 10) || (c =? 11) || (c =? 12) || (c =? 13) || (c =? 32)
@@ -235,7 +235,7 @@ Fixpoint layoutb (t o : str) {struct o} : bool :=
   | [] => match drop_ws t with [] => true | _ => false end
   | c :: o' =>
       if out_ws c then layoutb (drop_ws t) o'
-      else match t with
+      else match drop_ws t with
            | c' :: t' => (c =? c') && layoutb t' o'
            | [] => false
            end
